@@ -38,18 +38,73 @@ def interval_clause(o):
     return False
 
 
+def kinds_mixed(o, s):
+    """ORDER BY is only specified for key columns holding one kind of value: True when some key column
+    of the (unlimited) reference result mixes kinds."""
+    ob = [w for w in o.split() if w.startswith("ob=")]
+    if not ob or ob[0][3:] == "-":
+        return False
+    keys = [k.split(":")[0] for k in ob[0][3:].split(",")]
+    s2 = s.split(" ", 1)[1] if s.startswith("limit=") else s
+    cs = cols(s2).split(",")
+    for k in keys:
+        if k not in cs:
+            continue
+        i = cs.index(k)
+        ks = set()
+        for r in rows(s2):
+            c = r.split("|")
+            if i < len(c):
+                p = c[i].split(",")[0]
+                ks.add("P" if p in ("PI", "PT") else p)
+        if len(ks) > 1:
+            return True
+    return False
+
+
+def key_projection(o, x):
+    """The ORDER BY key columns of a result, row by row (instants without zone)."""
+    ob = [w for w in o.split() if w.startswith("ob=")][0][3:]
+    keys = [k.split(":")[0] for k in ob.split(",")]
+    cs = cols(x).split(",")
+    idx = [cs.index(k) for k in keys if k in cs]
+    r = x.split("rows=", 1)[1] if "rows=" in x else ""
+    r = re.sub(r"(\bT,-?\d+),-?\d+", r"\1", r)
+    r = re.sub(r"(\bPT,[0-9a-f-]+,-?\d+),-?\d+", r"\1", r)
+    out = []
+    for row in (r.split(";") if r else []):
+        c = row.split("|")
+        out.append("|".join(c[i] for i in idx if i < len(c)))
+    return out
+
+
+def unorder(x):
+    return x.split("rows=")[0] + "rows=" + ";".join(sorted(rows(x))) if "rows=" in x else x
+
+
 def text_of(o):
     return bytes.fromhex(o.split("text=")[1].split()[0]).decode("utf-8", "replace")
 
 
-def model_agrees(o, a, m):
+def model_agrees(o, a, m, s=None):
     """Model vs implementation. LIMIT without ORDER BY leaves the choice of rows open (the order of
     rows before the cut depends on goroutine scheduling): then only columns and count are compared."""
     if m == "unsupported":
         return True
     lim = "lim=-" not in o
     ordered = " ob=-" not in o
-    if lim and not ordered and a.startswith("ok") and m.startswith("ok"):
+    if not (a.startswith("ok") and m.startswith("ok")):
+        return a == m
+    ref = s if (s and s.startswith(("ok", "limit="))) else m
+    mixed = ordered and kinds_mixed(o, ref)
+    if ordered and lim and mixed:
+        return cols(a) == cols(m) and len(rows(a)) == len(rows(m))
+    if ordered and lim:
+        # rows tying on the ORDER BY keys may be cut differently: key columns and count must agree
+        return cols(a) == cols(m) and len(rows(a)) == len(rows(m)) and key_projection(o, a) == key_projection(o, m)
+    if mixed:
+        return unorder(a) == unorder(m)
+    if lim and not ordered:
         return cols(a) == cols(m) and len(rows(a)) == len(rows(m))
     return a == m
 
@@ -60,6 +115,28 @@ def spec_verdict(o, a, s):
         return None
     loose = "overlap=1" in o or interval_clause(o)
     ordered = " ob=-" not in o
+    grouped = " gb=-" not in o
+    if loose and grouped:
+        return None  # aggregates depend on multiplicities the property leaves open here
+    if ordered and s.startswith(("ok", "limit=")) and kinds_mixed(o, s):
+        ordered = False  # ORDER BY is unspecified for key columns mixing kinds
+        a, s = unorder(a), (s.split(" ", 1)[0] + " " + unorder(s.split(" ", 1)[1]) if s.startswith("limit=") else unorder(s))
+    if s.startswith("limit=") and ordered:
+        nlim = int(s.split()[0].split("=")[1])
+        s2 = s.split(" ", 1)[1]
+        if not a.startswith("ok"):
+            return f"the query fails ({a.split()[0]}) although the specification defines a result"
+        if cols(a) != cols(s2):
+            return "different columns"
+        ra, rs = rows(a, True), rows(s2, True)
+        n = min(nlim, len(rs))
+        if len(ra) != n:
+            return f"ORDER BY ... LIMIT {nlim} returns {len(ra)} rows although {len(rs)} rows qualify"
+        if not (set(ra) <= set(rs) if loose else submulti(ra, rs)):
+            return "ORDER BY ... LIMIT returns rows that do not qualify"
+        if not loose and key_projection(o, a) != key_projection(o, s2)[:n]:
+            return "ORDER BY ... LIMIT n does not return the first n rows of the ordered result"
+        return None
     if s.startswith("limit="):
         nlim = int(s.split()[0].split("=")[1])
         s2 = s.split(" ", 1)[1]
@@ -84,6 +161,13 @@ def spec_verdict(o, a, s):
     if cols(a) != cols(s):
         return "different columns"
     ra, rs = rows(a, True), rows(s, True)
+    if ordered:
+        ka, ks = key_projection(o, a), key_projection(o, s)
+        if loose:  # multiplicities are open: compare the sequences without repetitions
+            uniq = lambda l: [x for i, x in enumerate(l) if i == 0 or l[i - 1] != x]
+            ka, ks = uniq(ka), uniq(ks)
+        if ka != ks:
+            return "ORDER BY: the rows are not in the order of the listed keys"
     if ra == rs:
         return None
     if loose and set(ra) == set(rs):
@@ -204,7 +288,7 @@ def run(r: core.Run, mode, prop_module, what, known_ops_key="ops"):
             nclauses[str(len(c[0][2:].split(";")) if c else 0)] += 1
             if nr > 0:
                 nontriv.add(o.split("text=")[1])
-            if not model_agrees(o, a, m):
+            if not model_agrees(o, a, m, s):
                 mism.append(i)
             why = spec_verdict(o, a, s)
             if why:
